@@ -25,6 +25,10 @@ CHECKS = {
    technique="TLA+ transducer of the HSMS-SS responder (impl/HsmsSS) folded by TLC over recorded frame exchanges between a scripted raw peer and live hsmsss connections (trace validation)",
    text="A raw scripted peer that shares no code with go-secs plays every sequence of an 19-symbol frame alphabet (every control SType incl. orphan responses and Reject.req, data primary/secondary, foreign session id, control frame with body, non-zero PType, undefined STypes, foreign-sid S9F1, second TCP connection) up to length 2 (quick) / 3 (thorough) plus longer random sequences, one frame per Linktest barrier and as single-/split-write bursts (data pipelined behind Select.req / Select.rsp), against live passive and active hsmsss connections over loopback TCP with session-id validation on and off. TLC (OracleHsmsSS) folds impl/HsmsSS!Respond over the frames the peer wrote and must reproduce every frame read back (status, reason, echoed type byte, session id, system bytes), handler deliveries, link liveness and State().",
    note="Trusted: the E37 answer tables as transcribed in spec/impl/HsmsSS.tla and fn/HsmsFrame.tla, the raw peer (harness/peerkit), loopback TCP, Linktest barriers as FIFO fence. Sequences are bounded; bursts with Select followed by Deselect are excluded because known finding F1 makes them racy (decided by C05)."),
+ "C07": dict(cat="model_checking", engine="hsmsss-e2e", design="§4 C07",
+   technique="TLA+ gate property (prop/Gate) and HSMS-SS transducer (impl/HsmsSS) as trace acceptors over recorded probes of live connections; exhaustive condition x entry-point x role grid and every byte cut of pipelined bursts",
+   text="Send half: all 8 data-sending entry points x all not-selected conditions (never opened, connecting, connected-not-selected, deselected, between reconnect generations, closed, deselected while the writer is parked under the write lock through the verif gate write.locked) x both roles are probed on live hsmsss connections against a raw peer; TLC judges each probe with prop/Gate (error class, zero data frames at the peer, exactly one drop, Linktest round trip still works; positive control while Selected). Receive half: Select.req (passive) / Select.rsp (active) followed by 1..3 data frames written as one burst cut at every byte offset, and data while not Selected, are judged by the impl/HsmsSS transducer (delivered, never rejected / Reject reason 4 with echoed ids, link stays up).",
+   note="Trusted: prop/Gate.tla condition table, the raw peer, loopback TCP. The interleaving 'supervisor between its load and store while the receive path commits' is decided at supervisor level by C05, not end to end."),
 }
 
 NA = {
